@@ -217,6 +217,12 @@ func thorough(id string, prop *Property, p *Prog, cov map[string]any, undec *[]s
 	cov["mutants_not_applicable"] = na
 	cov["mutants_invalid"] = invalid
 	cov["mutants_explanation"] = "checker self-test: each mutant is a one-instance breakage of the property's mechanism applied to a scratch copy of the tree under analysis (deleted afterwards) and analysed by the same rule code in a child process; 'killed' = the named rule reported it. Mutants exercise the checker only and never decide the verdict on /repo. not-applicable = the mutant's anchor text is absent from the analysed tree."
+	// replay of the independently seeded breakages that this property's check is recorded to catch
+	sres, skilled, smissed := replaySeeds(id, p.Root)
+	cov["seeded_replays"] = sres
+	cov["seeded_reported"] = skilled
+	cov["seeded_not_reported"] = smissed
+	missed += smissed
 	if missed > 0 && os.Getenv("KZ_STRICT_MUTANTS") != "" {
 		*undec = append(*undec, fmt.Sprintf("checker self-test: %d mutant(s) not reported", missed))
 	}
@@ -261,4 +267,85 @@ func runMutantsCLI() int {
 		return 1
 	}
 	return 0
+}
+
+type seedResult struct {
+	ID     string  `json:"id"`
+	Status string  `json:"status"` // reported | NOT-REPORTED | not-applicable
+	WallS  float64 `json:"wall_s"`
+}
+
+// replaySeeds applies each stored seeded patch that meta.json records as detected by property id to a scratch copy
+// and runs the property's quick check on it in a child process (regression test of the checker, never a verdict).
+func replaySeeds(id, repo string) ([]seedResult, int, int) {
+	dirs, _ := filepath.Glob(filepath.Join(*flagVerif, "seeded", "*", "meta.json"))
+	sort.Strings(dirs)
+	var out []seedResult
+	ok, miss := 0, 0
+	for _, mf := range dirs {
+		b, err := os.ReadFile(mf)
+		if err != nil {
+			continue
+		}
+		var meta struct {
+			ID         string `json:"id"`
+			DetectedBy []struct {
+				Property string `json:"property"`
+			} `json:"detected_by"`
+		}
+		if jsonUnmarshal(b, &meta) != nil {
+			continue
+		}
+		mine := false
+		for _, d := range meta.DetectedBy {
+			if d.Property == id {
+				mine = true
+			}
+		}
+		if !mine {
+			continue
+		}
+		start := time.Now()
+		res := seedResult{ID: meta.ID}
+		tmp, err := os.MkdirTemp("", "kzseed-")
+		if err != nil {
+			continue
+		}
+		func() {
+			defer os.RemoveAll(tmp)
+			if copyTree(repo, tmp) != nil {
+				res.Status = "not-applicable"
+				return
+			}
+			patch := filepath.Join(filepath.Dir(mf), "patch.diff")
+			pc := exec.Command("patch", "-p2", "-s", "-f", "-d", tmp, "-i", patch)
+			if pout, err := pc.CombinedOutput(); err != nil {
+				_ = pout
+				res.Status = "not-applicable" // the tree under analysis no longer matches the patch context
+				return
+			}
+			self, _ := os.Executable()
+			cmd := exec.Command(self, "-repo", tmp, "-verif", *flagVerif, "-property", id, "-no-evidence")
+			o, err := cmd.CombinedOutput()
+			code := 0
+			if ee, isExit := err.(*exec.ExitError); isExit {
+				code = ee.ExitCode()
+			}
+			if code == 1 && strings.Contains(string(o), "VIOLATION property="+id) {
+				res.Status = "reported"
+			} else {
+				res.Status = "NOT-REPORTED"
+			}
+		}()
+		res.WallS = time.Since(start).Seconds()
+		switch res.Status {
+		case "reported":
+			ok++
+		case "NOT-REPORTED":
+			miss++
+		}
+		fmt.Printf("   seed   %-28s %s\n", res.ID, res.Status)
+		out = append(out, res)
+	}
+	return out, ok, miss
 }
